@@ -31,7 +31,7 @@ BOUNDS = {
 
 def describe(tier):
     return {
-        "rule": ep.RULE_PREFIX + "Oracle for EVERY hit object that is in the final tree, against what its decoder returned (text searched, [a,b) at "
+        "rule": ep.RULE_PREFIX + ep.RULE_STRETCH + "Oracle for EVERY hit object that is in the final tree, against what its decoder returned (text searched, [a,b) at "
         "return time): sum of start offsets along its chain of enclosing context nodes of the same search == a; end-start == b-a; the node "
         "under which that chain hangs has the searched text as value; original slice == text[a:b] ignoring ASCII case. "
         "Non-trivial = a configuration/input with a kept hit under >=1 context whose accumulated offset is non-zero.",
